@@ -92,6 +92,10 @@ func Check(rec *Record) []Finding {
 	if o.Deadlock && last != nil {
 		where := "Stream"
 		key := "blocked:Stream"
+		if ph := setupPhase(rec, last); ph != "" {
+			// still setting the connection up: name the stage
+			key = "blocked:Stream:" + ph
+		}
 		if last.Returned {
 			where = fmt.Sprintf("Error() call %d", last.ErrReturned+1)
 			cls := "after-stream"
@@ -103,12 +107,24 @@ func Check(rec *Record) []Finding {
 		add("C05", key, fmt.Sprintf("%s never returns (attempt %d): %s", where, len(rec.Attempts)-1, strings.Join(o.Blocked, "; ")))
 	}
 	if !o.Deadlock && len(o.LeakedLib) > 0 {
-		add("C05", "leak:"+parkedOn(o.LeakedLib[0]), "library goroutine remains after Stream/Error returned: "+strings.Join(o.LeakedLib, "; "))
+		key := "leak:" + parkedOn(o.LeakedLib[0])
+		if strings.Contains(strings.SplitN(o.LeakedLib[0], " ", 2)[0], ".w") {
+			key = "leak:driver-watcher"
+			if unusedConn(rec) {
+				key += ":cancel-at-dial-return"
+			}
+		}
+		add("C05", key, "library goroutine remains after Stream/Error returned: "+strings.Join(o.LeakedLib, "; "))
 	}
 	if !o.Deadlock && !o.StepLimit && o.Panic == "" {
 		for i, ar := range rec.Attempts {
 			if ar.Conn >= 0 && ar.Conn < len(rec.Conns) && !rec.Conns[ar.Conn].Closed() {
-				add("C05", "conn-open", fmt.Sprintf("connection of attempt %d was never closed", i))
+				key := "conn-open"
+				c := rec.Conns[ar.Conn]
+				if c.BytesRead() == 0 && c.BytesWritten() == 0 && ar.CancelIssued {
+					key = "conn-open:cancel-at-dial-return"
+				}
+				add("C05", key, fmt.Sprintf("connection of attempt %d was never closed (client read %d bytes, wrote %d)", i, c.BytesRead(), c.BytesWritten()))
 			}
 		}
 	}
@@ -230,7 +246,10 @@ func Check(rec *Record) []Finding {
 			pre := sc.Attempts[i].Plan.Pre
 			// when the master goes away right after answering the SET query the
 			// client's dump request may fail in the write and never arrive
-			if stage < 2 && !preFails(pre) && pre != "fin_after_query" && pre != "rst_after_query" && ar.Returned {
+			// a caller that cancels while the connection is being set up ends
+			// the attempt before the dump request is due
+			setupCancelled := ar.CancelIssued && sc.Attempts[i].Cancel != nil && setupTrigger(sc.Attempts[i].Cancel.Kind)
+			if stage < 2 && !preFails(pre) && pre != "fin_after_query" && pre != "rst_after_query" && ar.Returned && !setupCancelled {
 				add("C07", "no-dump", fmt.Sprintf("attempt %d: no dump request was issued (%v)", i, log.Cmds))
 			}
 		}
@@ -324,6 +343,44 @@ func parkedOn(s string) string {
 		return s[i+len("parked on "):]
 	}
 	return s
+}
+
+func setupTrigger(kind string) bool {
+	return kind == "start" || kind == "dialed" || kind == "stalled"
+}
+
+// setupPhase names the stage of the connection setup the attempt is in
+// ("" once the dump request has reached the master).
+func setupPhase(rec *Record, ar *AttemptRec) string {
+	l := connLog(rec, ar)
+	if l == nil {
+		return "connect"
+	}
+	q := false
+	for _, c := range l.Cmds {
+		switch c.Code {
+		case ref.ComBinlogDump:
+			return ""
+		case ref.ComQuery:
+			q = true
+		}
+	}
+	if q {
+		return "set-query-reply"
+	}
+	return "connect"
+}
+
+// unusedConn: some attempt was cancelled and its connection was never used.
+func unusedConn(rec *Record) bool {
+	for _, ar := range rec.Attempts {
+		if ar.Conn >= 0 && ar.Conn < len(rec.Conns) && ar.CancelIssued {
+			if c := rec.Conns[ar.Conn]; c.BytesRead() == 0 && c.BytesWritten() == 0 && !c.Closed() {
+				return true
+			}
+		}
+	}
+	return false
 }
 
 func preFails(pre string) bool {
